@@ -211,6 +211,57 @@ Fixpoint dedup_str (l : list str) : list str :=
 Definition label_names (names : list str) : list str :=
   sort_str (filter (fun s => negb (is_nil s)) (dedup_str names)).
 
+(* ---- LookupSymbol: name symbols map + direct-mapped value-symbol cache ------------ *)
+(* valueSymbols [valueSymbolsCacheSize]struct{index uint32; symbol string}: slot = o % 1024;
+   a slot is a hit only when its index is the looked-up reference (and its string is non-empty).
+   [tbl] is the symbol table (symbols.Lookup; None = error), given as data. [names] are the
+   references of label-name symbols (r.nameSymbols), answered without touching the cache. *)
+Definition sym_cache_size : Z := 1024.
+Definition scache := list (Z * (Z * str)).     (* slot -> (index, symbol) *)
+Fixpoint sc_get (c : scache) (slot : Z) : option (Z * str) :=
+  match c with
+  | [] => None
+  | (k, v) :: r => if k =? slot then Some v else sc_get r slot
+  end.
+
+Definition lookup_symbol (tbl : Z -> option str) (names : list Z) (c : scache) (o : Z) : option str * scache :=
+  if existsb (Z.eqb o) names then (tbl o, c)
+  else
+    let slot := Z.rem o sym_cache_size in
+    match sc_get c slot with
+    | Some (idx, x :: s) => if idx =? o then (Some (x :: s), c) else
+        match tbl o with Some s' => (Some s', (slot, (o, s')) :: c) | None => (None, c) end
+    | _ => match tbl o with Some s' => (Some s', (slot, (o, s')) :: c) | None => (None, c) end
+    end.
+
+Fixpoint run_lookups (tbl : Z -> option str) (names : list Z) (c : scache) (h : list Z) : list (option str) :=
+  match h with
+  | [] => []
+  | o :: r => let '(a, c') := lookup_symbol tbl names c o in a :: run_lookups tbl names c' r
+  end.
+
+(* the same without the `cached.index == o` test (what a slot-only hit test would do) *)
+Definition lookup_symbol_noidx (tbl : Z -> option str) (names : list Z) (c : scache) (o : Z) : option str * scache :=
+  if existsb (Z.eqb o) names then (tbl o, c)
+  else
+    let slot := Z.rem o sym_cache_size in
+    match sc_get c slot with
+    | Some (idx, x :: s) => (Some (x :: s), c)
+    | _ => match tbl o with Some s' => (Some s', (slot, (o, s')) :: c) | None => (None, c) end
+    end.
+Fixpoint run_lookups_noidx (tbl : Z -> option str) (names : list Z) (c : scache) (h : list Z) : list (option str) :=
+  match h with
+  | [] => []
+  | o :: r => let '(a, c') := lookup_symbol_noidx tbl names c o in a :: run_lookups_noidx tbl names c' r
+  end.
+
+(* the table restricted to the references that occur in a history, as data *)
+Fixpoint tbl_of (l : list (Z * option str)) (o : Z) : option str :=
+  match l with
+  | [] => None
+  | (k, v) :: r => if k =? o then v else tbl_of r o
+  end.
+
 (* ---- specification: what the full index says ------------------------------ *)
 (* posting list of value w: starts after the length field of its own offset,
    ends before the CRC that precedes the next posting list (the next table
@@ -247,7 +298,10 @@ Inductive case :=
         (lv_impl : option (list str)) (lv_full : list str)
 | CNames (names : list str) (impl full : list str)
 | CAbsent (in_table : bool) (offsets_len values_len : nat)
-| CSymbols (impl full : list str).
+| CSymbols (impl full : list str)
+(* a lookup history on ONE reader: name-symbol references, then (reference, symbol in the full
+   index (None = out of range), answer of LookupSymbol (None = error)) in the order of the calls *)
+| CSymHist (names : list Z) (hist : list (Z * option str * option str)).
 
 Definition corr_ok (c : case) : bool :=
   match c with
@@ -265,6 +319,10 @@ Definition corr_ok (c : case) : bool :=
   | CNames names impl _ => list_eqb str_eqb (label_names names) impl
   | CAbsent in_table ol vl => in_table || (Nat.eqb ol 0 && Nat.eqb vl 0)
   | CSymbols _ _ => true     (* symbol table decoding is not modelled *)
+  | CSymHist names hist =>
+      lookup_symbol_cond_ok &&
+      let tbl := tbl_of (map (fun x => (fst (fst x), snd (fst x))) hist) in
+      list_eqb (option_eqb str_eqb) (run_lookups tbl names [] (map (fun x => fst (fst x)) hist)) (map snd hist)
   end.
 
 Definition pred_ok (c : case) : bool :=
@@ -277,4 +335,5 @@ Definition pred_ok (c : case) : bool :=
   | CNames _ impl full => list_eqb str_eqb impl full
   | CAbsent in_table ol vl => in_table || (Nat.eqb ol 0 && Nat.eqb vl 0)
   | CSymbols impl full => list_eqb str_eqb impl full
+  | CSymHist _ hist => forallb (fun x => option_eqb str_eqb (snd x) (snd (fst x))) hist
   end.
